@@ -1,12 +1,115 @@
 package main
 
 import (
+	"flag"
 	"fmt"
-	"golang.org/x/tools/go/packages"
+	"os"
+	"regexp"
+	"sort"
+	"strings"
+	"time"
 )
 
 func main() {
-	cfg := &packages.Config{Mode: packages.LoadAllSyntax, Dir: "/repo", BuildFlags: []string{"-tags=verif"}}
-	pkgs, err := packages.Load(cfg, "./internal/ebnf/lexer")
-	fmt.Println(len(pkgs), err)
+	if len(os.Args) < 2 {
+		fmt.Fprintln(os.Stderr, "usage: govc dev|check ...")
+		os.Exit(2)
+	}
+	defer cleanupScratch()
+	switch os.Args[1] {
+	case "dev":
+		devMain(os.Args[2:])
+	case "check":
+		os.Exit(checkMain(os.Args[2:]))
+	default:
+		fmt.Fprintln(os.Stderr, "unknown command", os.Args[1])
+		os.Exit(2)
+	}
 }
+
+// dev: verify units matching a regexp and print every obligation.
+func devMain(args []string) {
+	fs := flag.NewFlagSet("dev", flag.ExitOnError)
+	repo := fs.String("repo", "/repo", "repository root")
+	pkgs := fs.String("pkgs", "./...", "package patterns (comma separated)")
+	filter := fs.String("units", ".", "regexp on unit keys")
+	timeout := fs.Int("t", 10, "solver timeout (s)")
+	keep := fs.String("keep", "", "directory to keep failed queries")
+	verbose := fs.Bool("v", false, "print proved obligations too")
+	dump := fs.String("dump", "", "obligation name whose query is printed")
+	backends := fs.String("backends", "", "comma separated solver names")
+	fs.Parse(args)
+	t0 := time.Now()
+	eng, err := loadEngine(*repo, strings.Split(*pkgs, ","), []string{"/verif/contracts/dep", "/verif/specs/gen"})
+	if err != nil {
+		fmt.Fprintln(os.Stderr, "load:", err)
+		os.Exit(2)
+	}
+	for _, e := range eng.loadErrs {
+		fmt.Println("LOAD-ERROR:", e)
+	}
+	fmt.Printf("loaded %d packages, %d units, %d contracts in %.1fs\n", len(eng.allPkgs), len(eng.units), len(eng.contracts), time.Since(t0).Seconds())
+	re := regexp.MustCompile(*filter)
+	var keys []string
+	for _, k := range eng.unitOrder {
+		if re.MatchString(k) {
+			keys = append(keys, k)
+		}
+	}
+	sort.Strings(keys)
+	var all []*Obligation
+	for _, k := range keys {
+		u := eng.units[k]
+		t1 := time.Now()
+		res, _ := eng.generate(u)
+		fmt.Printf("== %s: %d obligations (%.2fs)\n", k, len(res.Obligations), time.Since(t1).Seconds())
+		for _, s := range res.Unsupported {
+			fmt.Println("   UNSUPPORTED:", s)
+		}
+		for _, s := range res.SpecErrors {
+			fmt.Println("   SPEC-ERROR:", s)
+		}
+		for _, s := range res.Uncontracted {
+			fmt.Println("   uncontracted callee:", s)
+		}
+		for _, s := range res.Assumptions {
+			fmt.Println("   assumption:", s)
+		}
+		all = append(all, res.Obligations...)
+	}
+	if *dump != "" {
+		for _, o := range all {
+			if o.Name == *dump {
+				fmt.Println(o.query())
+			}
+		}
+		return
+	}
+	var bk []string
+	if *backends != "" {
+		bk = strings.Split(*backends, ",")
+	}
+	t2 := time.Now()
+	dischargeAll(all, solveOpts{TimeoutS: *timeout, Seed: 0, Backends: bk}, 16, *keep)
+	np, nf := 0, 0
+	for _, o := range all {
+		ok := o.Result.Verdict == Proved
+		if o.MustFail {
+			ok = o.Result.Verdict != Proved
+		}
+		if ok {
+			np++
+			if *verbose {
+				fmt.Printf("  ok   %-60s %s %.2fs\n", o.Name, o.Result.Backend, o.Result.Secs)
+			}
+			continue
+		}
+		nf++
+		fmt.Printf("  FAIL %-60s %s %s %.2fs  %s:%d  %s\n", o.Name, o.Result.Verdict, o.Result.Backend, o.Result.Secs, o.Pos.Filename, o.Pos.Line, o.Desc)
+		if o.Result.Verdict == Unknown && o.Result.Output != "" {
+			fmt.Println("       ", strings.ReplaceAll(o.Result.Output, "\n", "\n        "))
+		}
+	}
+	fmt.Printf("discharged %d/%d in %.1fs\n", np, np+nf, time.Since(t2).Seconds())
+}
+
